@@ -120,11 +120,13 @@ def melody(ctx):
   ok = False
   if len(r) == 1:
     try:
-      top = nf.Builder(dict(env0, **{ev: E('self._max_note - 1')})).rat(ep[1][1]) + nf.rat(E('1'))
+      exp = [U.expand_locals(enc.node, p_[1], at=p_[2]) for p_ in ep]
+      note_piece = next((x for x in exp if '_min_note' in norm_text(x)), exp[1])      # the piece that encodes pitches, wherever it stands
+      top = nf.Builder(dict(env0, **{ev: E('self._max_note - 1')})).rat(note_piece) + nf.rat(E('1'))
       ok = nf.Builder(env0).rat(r[0].value).equals(top)
     except nf.NFError:
       ok = False
-  ctx.ob('WIDTH/melody', nc, r[0] if r else nc.node, ok, 'num_classes = label(max_note - 1) + 1' if ok else 'num_classes is not the largest label + 1', construct='melody num_classes')
+  ctx.ob('WIDTH/melody', nc, r[0] if r else nc.node, ok, 'num_classes = label(max_note - 1) + 1' if ok else 'num_classes is not the largest label + 1', construct='melody num_classes', depends=[enc])
   # encode rejects out-of-range events
   guards = [norm_text(s.test) for s in enc.node.body if isinstance(s, ast.If) and any(isinstance(x, ast.Raise) for x in s.body)]
   ok = len(guards) >= 3
@@ -213,12 +215,19 @@ def chords(ctx):
     ctx.ob('INV/chords-no-chord', enc, zero[0] if zero else enc.node, ok, 'NO_CHORD <-> 0' if ok else '%s does not map NO_CHORD to index 0 and back' % cname, construct='%s NO_CHORD' % cname)
 
 
-def block_split(ctx, dec, ix, env0, cname):
+def block_split(ctx, dec, ix, env0, cname, rule='INV/chords-block-split', _depth=0):
   """Location-independent: index 0 is NO_CHORD, so the 12 roots of quality k occupy 12k+1 .. 12k+12.  However the decoder splits
   an index into (quality, root) - divmod, //, % by the octave - the dividend must be index - 1 (for %, congruent to it modulo
   12): splitting `index` itself sends every multiple of 12 to the wrong block."""
   fn = dec.node
   want = nf.rat(E('%s - 1' % ix))
+  # the split may live in a module-level helper the decoder hands its index to
+  for c in U.calls_in(fn):
+    g = dec.module.functions.get(dotted(c.func) or '')
+    if g is not None and g is not dec and not _depth:
+      for k, a in enumerate(c.args):
+        if isinstance(a, ast.Name) and a.id == ix and k < len(g.params()):
+          block_split(ctx, g, g.params()[k], env0, cname, rule, _depth=1)
   for n in ast.walk(fn):
     kind = None
     if isinstance(n, ast.Call) and dotted(n.func) == 'divmod' and len(n.args) == 2:
@@ -236,10 +245,57 @@ def block_split(ctx, dec, ix, env0, cname):
     if diff is None:
       continue
     if diff == 0 or (kind == '%' and diff % 12 == 0):
-      ctx.ob('INV/chords-block-split', dec, n, True, '%s splits index - 1 into (quality, root)' % cname, construct='%s %s by the octave' % (cname, kind), definite=True)
+      ctx.ob(rule, dec, n, True, '%s splits index - 1 into (quality, root)' % cname, construct='%s %s by the octave' % (cname, kind), definite=True)
     elif diff % 12 != 0:
-      ctx.ob('INV/chords-block-split', dec, n, False, '%s: %s splits %s, which is index - 1 %+d: index 0 is NO_CHORD and quality k owns 12k+1 .. 12k+12, so indices that are multiples '
+      ctx.ob(rule, dec, n, False, '%s: %s splits %s, which is index - 1 %+d: index 0 is NO_CHORD and quality k owns 12k+1 .. 12k+12, so indices that are multiples '
              'of 12 (the chords on B) decode into the neighbouring quality' % (cname, norm_text(n), norm_text(dividend), diff), construct='%s %s by the octave' % (cname, kind), definite=True)
+
+
+def _le_form(c):
+  """integer comparison (e, sym) as  e' <= 0"""
+  e, sym = c
+  if sym == '<':
+    return e + nf.Rat(nf.Poly.const(1))
+  if sym == '<=':
+    return e
+  return None
+
+
+def range_inclusion(ctx, init):
+  """Location-independent: an event type owns a block of indices exactly when its value range lo..hi is non-empty, lo <= hi (a
+  range with a single value - one velocity bin, one shift step, one pitch - is a block of width 1).  Whatever condition decides
+  whether a (type, lo, hi) range is listed - a guard around an append, a filter of a comprehension over candidate ranges - must
+  be the integer comparison lo <= hi; lo < hi drops the one-value block, so valid events of that type cannot be encoded."""
+  fn = init.node
+  for n in ast.walk(fn):
+    # [(t, lo, hi) for t, lo, hi in candidates if COND]
+    if isinstance(n, (ast.ListComp, ast.GeneratorExp)) and len(n.generators) == 1 and isinstance(n.generators[0].target, ast.Tuple) and len(n.generators[0].target.elts) == 3 and \
+       all(isinstance(e, ast.Name) for e in n.generators[0].target.elts):
+      _t, lo, hi = [e.id for e in n.generators[0].target.elts]
+      for cond in n.generators[0].ifs:
+        _judge(ctx, init, cond, lo, hi, 'the filter of the range list')
+    # if COND: ranges.append((TYPE, lo, hi))
+    if isinstance(n, ast.If):
+      for s in n.body:
+        if isinstance(s, ast.Expr) and isinstance(s.value, ast.Call) and isinstance(s.value.func, ast.Attribute) and s.value.func.attr == 'append' and len(s.value.args) == 1 and \
+           isinstance(s.value.args[0], ast.Tuple) and len(s.value.args[0].elts) == 3 and (dotted(s.value.args[0].elts[0]) or '').startswith('PerformanceEvent.'):
+          _judge(ctx, init, n.test, norm_text(s.value.args[0].elts[1]), norm_text(s.value.args[0].elts[2]), 'the guard of the %s range' % dotted(s.value.args[0].elts[0]).split('.')[-1])
+
+
+def _judge(ctx, init, cond, lo, hi, what):
+  try:
+    c = nf.compare_nf(cond)
+    w = nf.compare_nf(E('%s <= %s' % (lo, hi)))
+  except nf.NFError:
+    return
+  if c is None or _le_form(c) is None:
+    return
+  if not (_le_form(c).atoms() <= _le_form(w).atoms() | set()) or not _le_form(c).atoms():
+    return      # a condition on something else
+  ok = _le_form(c).equals(_le_form(w))
+  ctx.ob('TAB/performance-range-inclusion', init, cond, ok, '%s is %s <= %s' % (what, lo, hi) if ok else
+         '%s is %s, not %s <= %s: a range with exactly one value (one velocity bin, max_shift_steps == 1, min_pitch == max_pitch) is not listed, so num_classes shrinks and '
+         'encode_event rejects valid events of that type' % (what, norm_text(cond), lo, hi), construct='a non-empty value range owns a block', definite=True)
 
 
 # ------------------------------------------------------------------ performance
@@ -310,6 +366,7 @@ def performance(ctx):
   want = {'NOTE_ON': ('min_pitch', 'max_pitch'), 'NOTE_OFF': ('min_pitch', 'max_pitch'), 'TIME_SHIFT': ('1', 'max_shift_steps'), 'VELOCITY': ('1', 'num_velocity_bins')}
   ok = got == want
   ctx.ob('TAB/performance-ranges', init, init.node, ok, 'ranges: pitches, pitches, 1..max_shift_steps, 1..num_velocity_bins' if ok else 'event ranges are %s' % got, construct='performance event ranges')
+  range_inclusion(ctx, init)
   fd = fold.Folder(ctx.P, ctx.S)
   lo_, hi_ = fd.module_const('performance_lib', 'MIN_MIDI_PITCH'), fd.module_const('performance_lib', 'MAX_MIDI_PITCH')
   ok = (lo_, hi_) == (0, 127)
